@@ -21,7 +21,7 @@ STAGES_FNS = ['InitState::(handle_init|every_second|send_ping|repeat_last_messag
 STAGES_TRUSTED = [
     'unit initstage, environment (contracts ASSUMED): ring ECDH key generation / agreement / key derivation (create_ecdh_keypair, derive_master_key: their unwrap()s concern locally generated keys and the SIGNED public key of a trusted peer), CryptoCore::new, InitState::decrypt (AEAD open + Payload::read_from: result is the uninterpreted function opened(core, sealed)), InitState::select_algorithm (result is the uninterpreted function selection(own, peer); its body is under contract as a Kani block under C06), InitState::check_salted_node_id_hash (its contract is PROVED in unit codec), InitMsg::read_from (PROVED total and signature-gated in unit codec; here: a function of the datagram and the trusted keys)',
     'unit initstage: InitState::send_message (encode + sign + store the outgoing message) is an environment function: its caller-dependent panic sites are its preconditions (assert!(out.is_empty()), key present for ping/pong, stage in 1..=3) and are PROVED at every call site; `expect("Buffer too small")` (the own node information does not fit) is ASSUMED not to fire and the message to be at most 65535-1024 bytes; buffers handed to a handshake object have space_before <= 1024 (cloud.rs: SPACE_BEFORE = 100 at every MsgBuffer::new)',
-    'unit initstage R5 pinned statements: comparisons of two [u8; 20] salted hashes (==, <, >, <=, >= in either order) through arr20_eq / arr20_gt (lexicographic order as uninterpreted function lex_gt), `CryptoCore::new(` -> core_new(; R1: the statement `self.selected_algorithm = ...` (field used by tests only) is dropped; R4: InitState without key_pair and selected_algorithm; R8: the two `.map_err(|_| Error::CryptoInitFatal(..))` closures get `ensures o is CryptoInitFatal`',
+    'unit initstage R5 pinned statements: comparisons of two [u8; 20] salted hashes (==, <, >, <=, >= in either order) through arr20_eq / arr20_gt (lexicographic order as uninterpreted function lex_gt), `CryptoCore::new(` -> core_new(; R1: the statement `self.selected_algorithm = ...` (field used by tests only) is dropped; R4: InitState without key_pair and selected_algorithm; R8: the `.map_err(|_| Error::CryptoInitFatal(..))` closure of the pong arm gets `ensures o is CryptoInitFatal` (a proof obligation on the closure body)',
     'the representation invariant of handshake objects is carried as far as the per-peer object: a fresh object satisfies it (block of InitState::new), InitState::{handle_init, every_second, take_core} preserve it except on a FATAL error in the pong arm, PeerCrypto::{handle_message, handle_init_message, every_second} (unit buffer, through the shared clause files units/iface/handle_init.*, init_every_second.contract, init_take_core.ensures) preserve it for their handshake object with the same exception, and a finished handshake object (the only kind inside an established peer) is never spoiled. NOT proved at node level: that GenericCloud discards a pending object after a fatal error (handle_socket_event: `self.pending_inits.remove(&src)`; sources of the real UdpSocket / proxy are always V6 so the removal key equals the mapped lookup key) - reading',
 ]
 NEG_DRV = {'file': 'native/init_negotiation.rs', 'attach': 'src/crypto/init.rs', 'test': 'negotiated_outcome_matches_the_property'}
@@ -438,6 +438,7 @@ PROPS['C01'] = {
     ],
 }
 
+OWN_DRV = {'file': 'native/own_addresses.rs', 'attach': 'src/tests/common.rs', 'test': 'own_addresses_are_adopted_not_dialled_and_never_a_peer'}
 SELF_DRV = {'file': 'native/self_connect.rs', 'attach': 'src/crypto/init.rs', 'test': 'a_node_recognises_itself_under_any_salt'}
 PROPS['C14'] = {
     'level': 'proof',
@@ -451,7 +452,7 @@ PROPS['C14'] = {
         'files': {'src/crypto/init.rs': ['kani/initblocks.rs.in']},
         'harnesses': [K(IB, 'nonce_halves_are_opposite', 'the "Connected to self" test of handle_init fires whenever the received salted hash equals the own one (first disjunct; the second disjunct is InitState::check_salted_node_id_hash, proved in unit codec)', fns=['crypto::init::InitState::handle_init (block: self test)'])],
     },
-    'native_search': {r'codec::(InitState::check_salted_node_id_hash|salted_hash_block|theorem_node_recognises_itself)': SELF_DRV, r'initstage::.*': STAGES_DRV},
+    'native_search': {r'codec::(InitState::check_salted_node_id_hash|salted_hash_block|theorem_node_recognises_itself)': SELF_DRV, r'initstage::.*': [STAGES_DRV, OWN_DRV], r'peers::GenericCloud::(connect_sock|adopt_own_addresses_block)': OWN_DRV},
     'trusted': CODEC_TRUSTED + PEERS_TRUSTED + STAGES_TRUSTED + ['SHA-256 (ring::digest) as an uninterpreted function with 32-byte results; R5 pinned statements: `digest::digest(&digest::SHA256, &x)`, `rng.fill(&mut hash[0..4]).unwrap()`, the slice comparison in check_salted_node_id_hash'],
     'not_decided': [
         'liveness: full mesh from any connected bootstrap graph within a bounded number of peer-exchange intervals, including NAT cases',
